@@ -23,7 +23,7 @@ RULE = ("every token sequence (smallest first) over alphabet A = { } \" , = LF b
         "C01 recursion defect is not what is measured).  Checked on parse_string(text, parse_stack=[]) and, for the "
         "random documents, also on Splitter(text).split().  distinct = distinct text; non-trivial = the text has a "
         "non-whitespace character (at least one block must come out)")
-BOUND = {"quick": "all sequences of <= 5 tokens over A (271,453) and <= 5 tokens over B (271,453); 200 random documents of 20..300 pieces (4 modes: valid only / + backslash-newline / + broken blocks / all)",
+BOUND = {"quick": "all sequences of <= 6 tokens over A (3,257,437) and <= 5 tokens over B (271,453); 200 random documents of 20..300 pieces (4 modes: valid only / + backslash-newline / + broken blocks / all)",
          "thorough": "all sequences of <= 7 tokens over A (39,089,245) and <= 6 tokens over B (3,257,437); 2000 random documents of 20..1500 pieces (same 4 modes)"}
 
 F2 = "F2-backslash-newline-line"
@@ -269,7 +269,7 @@ CHECKS = {"C03.tiling": check_tiling, "C03.document": check_document}
 
 def generate(tier, rng):
     global _PRE
-    la, lb = (5, 5) if tier == "quick" else (7, 6)
+    la, lb = (6, 5) if tier == "quick" else (7, 6)
     # smallest first: both alphabets level by level would interleave pools; A then B keeps each stream ordered by length
     for text, verdict in tokens.scan(_eval_fast, ALPHA_A, la):
         _PRE = (text, verdict)
